@@ -110,14 +110,20 @@ func (e *Eval) compile(node ast.Node) error {
 	case *ast.HashLiteral:
 		keys := []ast.Expression{}
 
-		// get the keys
-		for k := range node.Pairs {
-			keys = append(keys, k)
+		// get the keys, in the order they were written
+		keys = append(keys, node.Keys...)
+		if len(keys) != len(node.Pairs) {
+			// a literal which was not built by our parser
+			keys = keys[:0]
+			for k := range node.Pairs {
+				keys = append(keys, k)
+			}
 		}
 
-		// sort them: by key, and by value when a key is repeated,
-		// so the order never depends on the iteration of the map
-		sort.Slice(keys, func(i, j int) bool {
+		// sort them: by key, and by value when a key is repeated.
+		// Pairs which print alike keep the order they were written
+		// in, so the order never depends on the iteration of the map
+		sort.SliceStable(keys, func(i, j int) bool {
 			a, b := keys[i].String(), keys[j].String()
 			if a != b {
 				return a < b
